@@ -61,6 +61,9 @@ class Gen:
             coll(a)
         self.used = {}
         self.left = 0
+        self._first = {}
+        self.first_used = {}
+        self.steer = True
 
     def _cost(self, a, memo=True):
         if memo:
@@ -82,6 +85,79 @@ class Gen:
             self._c[id(a)] = c
         return c
 
+    # ---- first-token steering: FIRST sets from the EBNF text, used to force the token that begins a nonterminal
+    def nullable(self, a):
+        k = a[0]
+        if k == 'sym':
+            return False
+        if k == 'seq':
+            return all(self.nullable(x) for x in a[1])
+        if k == 'alt':
+            return any(self.nullable(x) for x in a[1])
+        if k in ('opt', 'star'):
+            return True
+        return self.nullable(a[1])
+
+    def first(self, a, _stack=()):
+        key = id(a)
+        if key in self._first:
+            return self._first[key]
+        k = a[0]
+        if k == 'sym':
+            if a[1] in self.rules:
+                if a[1] in _stack:
+                    return set()
+                r = self.first(self.rules[a[1]], _stack + (a[1],))
+            else:
+                r = {a[1]}
+        elif k == 'seq':
+            r = set()
+            for x in a[1]:
+                r |= self.first(x, _stack)
+                if not self.nullable(x):
+                    break
+        elif k == 'alt':
+            r = set()
+            for x in a[1]:
+                r |= self.first(x, _stack)
+        else:
+            r = self.first(a[1], _stack)
+        if not _stack:
+            self._first[key] = r
+        return r
+
+    def _exp_first(self, a, t, budget, rule):
+        """expansion of `a` whose first token is t (t must be in first(a))"""
+        k = a[0]
+        if k == 'sym':
+            if a[1] in self.rules:
+                return [('node', a[1], self._exp_first(self.rules[a[1]], t, max(budget, self.cost[a[1]]), a[1]))]
+            return [('tok', a[1])]
+        if k == 'seq':
+            out = []
+            forced = False
+            for x in a[1]:
+                if forced:
+                    out += self._exp(x, max(self._cost(x), budget // max(1, len(a[1]))), rule)
+                elif t in self.first(x):
+                    out += self._exp_first(x, t, budget, rule)
+                    forced = True
+                # else: x is nullable and skipped (expands to nothing)
+            return out
+        if k == 'alt':
+            ok = [x for x in a[1] if t in self.first(x)]
+            x = self.rng.choice(ok)
+            self.used[id(x)] = self.used.get(id(x), 0) + 1
+            return self._exp_first(x, t, budget, rule)
+        if k == 'opt':
+            return self._exp_first(a[1], t, budget, rule)
+        if k in ('star', 'plus'):
+            out = self._exp_first(a[1], t, budget, rule)
+            if self.rng.random() < .3 and self._cost(a[1]) <= budget:
+                out += self._exp(a[1], budget // 2, rule)
+            return out
+        raise ValueError(k)
+
     def derive(self, rule, budget):
         """derivation of `rule` with at most about `budget` tokens (never less than the rule's minimum)"""
         return ('node', rule, self._exp(self.rules[rule], max(budget, self.cost[rule]), rule))
@@ -91,6 +167,14 @@ class Gen:
         rng = self.rng
         if k == 'sym':
             if a[1] in self.rules:
+                if self.steer and rng.random() < .6:
+                    # start this occurrence of the nonterminal with the first token used least often here
+                    fs = sorted(self.first(a))
+                    if fs:
+                        cnt = self.first_used
+                        t = min(fs, key=lambda x: (cnt.get((id(a), x), 0), rng.random()))
+                        cnt[(id(a), t)] = cnt.get((id(a), t), 0) + 1
+                        return self._exp_first(a, t, max(budget, self.cost[a[1]]), rule)
                 return [self.derive(a[1], budget)]
             return [('tok', a[1])]
         if k == 'seq':
@@ -463,7 +547,7 @@ def replay(w, ctx):
 
 
 def shards(tier, seed):
-    n = 5000 if tier == 'quick' else 100000
+    n = 700 if tier == 'quick' else 40000
     out = []
     for v in harness.VERSIONS:
         for k in range(2 if tier == 'quick' else 4):
@@ -472,7 +556,18 @@ def shards(tier, seed):
 
 
 def floors(tier):
-    return {'evaluations': 3000, 'token_mode_parses': 5000, 'text_mode_parses': 1000}
+    return {'evaluations': 3000, 'token_mode_parses': 5000, 'text_mode_parses': 1000, 'min_plan_coverage_percent': 40}
+
+
+def post_merge(m, tier):
+    """derived counters for the reach floors"""
+    pc = []
+    for v in harness.VERSIONS:
+        allp = set(m['sets'].get('plans_reachable:' + v, ()))
+        taken = set(m['sets'].get('plans_taken:' + v, ()))
+        if allp:
+            pc.append(100 * len(taken) // len(allp))
+    m['counters']['min_plan_coverage_percent'] = min(pc) if len(pc) == len(harness.VERSIONS) else 0
 
 
 def extra_coverage(m, tier):
